@@ -42,11 +42,7 @@ theorem itemSet_select (is : List Nat) (d : List Item) (e : Item) :
 theorem flattenDict_select (is : List Nat) (expr : String) (r : Bool) (fmt : Fmt) (cols : List (Field × Col)) :
     flattenDict expr r fmt (selCols is cols) = (flattenDict expr r fmt cols).map (selItem is) := by
   unfold flattenDict
-  have hf : (selCols is cols).filter (fun fc => !fc.1.hidden) = selCols is (cols.filter (fun fc => !fc.1.hidden)) := by
-    simp only [selCols, List.filter_map]
-    rfl
-  rw [hf]
-  generalize cols.filter (fun fc => !fc.1.hidden) = l
+  generalize cols = l
   suffices ∀ acc : List Item,
       (selCols is l).foldl (fun d fc => itemSet d ⟨fmt.format expr fc.1.text, ⟨expr, some fc.1, r⟩, fc.2⟩) (acc.map (selItem is))
         = (l.foldl (fun d fc => itemSet d ⟨fmt.format expr fc.1.text, ⟨expr, some fc.1, r⟩, fc.2⟩) acc).map (selItem is) from this []
